@@ -451,6 +451,22 @@ impl VisitMut for Rw {
                 }
             }
         }
+        // R29: Result::unwrap_or_else with a closure that terminates the process (definition of unwrap_or_else);
+        // keeps the exit in the enclosing function, where the process state is in scope
+        if let Expr::MethodCall(mc) = e {
+            if mc.method == "unwrap_or_else" && mc.args.len() == 1 {
+                if let Expr::Closure(c) = &mc.args[0] {
+                    if c.inputs.len() == 1 && c.body.to_token_stream().to_string().contains("exit (") {
+                        let recv = (*mc.receiver).clone(); let pat = c.inputs[0].clone(); let body = (*c.body).clone();
+                        self.bump("R29");
+                        let mut ne: Expr = parse_quote!(match #recv { Ok(__v) => __v, Err(#pat) => #body });
+                        self.visit_expr_mut(&mut ne);
+                        *e = ne;
+                        return;
+                    }
+                }
+            }
+        }
         // children first (closure arguments of a method call get that method's name as their label)
         if let Expr::MethodCall(mc) = e {
             self.visit_expr_mut(&mut mc.receiver);
